@@ -151,7 +151,7 @@ def build_lib(variant='plain'):
                    'repo_hash': repo_hash()}, open(os.path.join(d, 'verif_meta.json'), 'w'))
         # drop object files, keep the archive and generated headers
         shutil.rmtree(os.path.join(d, 'CMakeFiles'), ignore_errors=True)
-        _prune_cache(os.path.join(CACHE, 'lib'), keep=8)
+        _prune_cache(os.path.join(CACHE, "lib"), keep=40)
         return Lib(d)
 
 
